@@ -725,6 +725,19 @@ impl<'a, const D: usize, const F: usize, const V: usize> Ctx<'a, D, F, V> {
                     Err(e) => (args, res_err(err_name(&e))),
                 }
             }
+            "find_sfn" => {
+                // lookup by the raw 11 bytes of a listed entry (no string parsing in between)
+                let d = self.dir(op["d"].as_str().unwrap());
+                let raw = crate::vals::unhex(op["sfn"].as_str().unwrap());
+                let mut b11 = [0u8; 11];
+                b11.copy_from_slice(&raw[..11]);
+                let sfn = sfn_from_bytes(b11);
+                let args = json!({"d": self.rel(hnum(&d)), "nm": op["sfn"], "nmok": true});
+                match vm.find_directory_entry(d, &sfn) {
+                    Ok(de) => (args, res_ok(de_json(self.vals, &de))),
+                    Err(e) => (args, res_err(err_name(&e))),
+                }
+            }
             "iterate" => {
                 let d = self.dir(op["d"].as_str().unwrap());
                 let reent = op.get("reent").and_then(|x| x.as_bool()).unwrap_or(false);
@@ -1024,8 +1037,25 @@ fn run_ops<const D: usize, const F: usize, const V: usize>(
     }
     let mut ctx: Ctx<D, F, V> = Ctx { vm: &vm, vals, vars: HashMap::new(), open_files: Vec::new(), id_offset };
     let mut clk = 100u32;
-    for op in ops {
+    let mut queue: std::collections::VecDeque<J> = ops.iter().cloned().collect();
+    while let Some(op_owned) = queue.pop_front() {
+        let op = &op_owned;
         let name = op["op"].as_str().unwrap();
+        if name == "lookup_all" {
+            // every listed entry must be found by name (C06): expand into one find per entry
+            if let Some(Var::Dir(d)) = op.get("d").and_then(|x| x.as_str()).and_then(|v| ctx.vars.get(v)).copied() {
+                let mut names: Vec<String> = Vec::new();
+                let _ = catch_unwind(AssertUnwindSafe(|| vm.iterate_dir(d, |de| names.push(hex(&sfn_bytes(&de.name))))));
+                img.dev.0.borrow_mut().log.clear();
+                for (k, n) in names.iter().enumerate().rev() {
+                    if k < 64 {
+                        queue.push_front(json!({"op": "find_sfn", "d": op["d"], "sfn": n}));
+                    }
+                }
+            }
+            continue;
+        }
+        let name = if name == "find_sfn" { "find" } else { name };
         if name == "remount" {
             let snap = img.dev.snapshot();
             let lv = lib_view(snap, &img.geos, ctx.vals);
